@@ -1108,6 +1108,217 @@ Definition record_from_text (c : pctx) (fs : list tfield) (chk : list tval -> re
 Definition record_to_text (st : style) (fs : list tfield) (vs : list tval) : res (list Z) :=
   print_fields st fs vs.
 
+(* ================================================================== dns/rdtypes/svcbbase.py (SVCB, HTTPS) *)
+(* svcbbase._unescape: str -> bytes; a backslash followed by a decimal digit starts a three-digit escape *)
+Fixpoint svcb_unescape (s : list Z) : res (list Z) :=
+  match s with
+  | [] => Ok []
+  | c :: r =>
+      if c =? 92 then
+        match r with
+        | [] => Lib eUnexpectedEnd
+        | c1 :: r1 =>
+            if is_decimal c1 then
+              match r1 with
+              | [] => Lib eUnexpectedEnd
+              | c2 :: r2 =>
+                  match r2 with
+                  | [] => Lib eUnexpectedEnd
+                  | c3 :: r3 =>
+                      if negb (is_decimal c2 && is_decimal c3) then Lib eSyntax
+                      else
+                        let cp := (c1 - 48) * 100 + (c2 - 48) * 10 + (c3 - 48) in
+                        if cp >? 255 then Lib eSyntax
+                        else do t <- svcb_unescape r3; Ok (cp :: t)
+                  end
+              end
+            else do e <- utf8_cp c1; do t <- svcb_unescape r1; Ok (e ++ t)
+        end
+      else do e <- utf8_cp c; do t <- svcb_unescape r; Ok (e ++ t)
+  end.
+
+(* svcbbase._split: the comma-separated items of a value, backslash escapes the next octet *)
+Fixpoint svcb_split (s cur : list Z) : res (list (list Z)) :=
+  match s with
+  | [] => Ok [rev cur]
+  | c :: r =>
+      if c =? 92 then
+        match r with
+        | [] => Lib eUnexpectedEnd
+        | c1 :: r1 => svcb_split r1 (c1 :: cur)
+        end
+      else if c =? 44 then do t <- svcb_split r []; Ok (rev cur :: t)
+      else svcb_split r (c :: cur)
+  end.
+
+(* svcbbase._escapify: comma and backslash *)
+Definition svcb_escapify (b : list Z) : list Z :=
+  flat_map (fun c => if (c =? 44) || (c =? 92) then [92; c] else [c]) b.
+
+Fixpoint join_comma (l : list (list Z)) : list Z :=
+  match l with
+  | [] => []
+  | [x] => x
+  | x :: r => x ++ 44 :: join_comma r
+  end.
+
+(* ParamKey members (upper case, as in the enum) *)
+Definition svcb_keys : list (list Z * Z) :=
+  [([77;65;78;68;65;84;79;82;89], 0); ([65;76;80;78], 1); ([78;79;95;68;69;70;65;85;76;84;95;65;76;80;78], 2);
+   ([80;79;82;84], 3); ([73;80;86;52;72;73;78;84], 4); ([69;67;72], 5); ([73;80;86;54;72;73;78;84], 6);
+   ([68;79;72;80;65;84;72], 7); ([79;72;84;84;80], 8); ([68;79;67;80;65;84;72], 10)].
+
+(* key_to_text: ParamKey.to_text(key).replace("_", "-").lower() *)
+Definition svcb_key_text (k : Z) : list Z :=
+  match assoc_value k svcb_keys with
+  | Some n => map lower_c (replace_char 95 45 n)
+  | None => [107; 101; 121] ++ dec k
+  end.
+
+(* _validate_key on the latin-1 decoding of the octets: (key, force_generic) *)
+Definition svcb_validate_key (b : list Z) : res (Z * bool) :=
+  let force := starts_with [107; 101; 121] (map lower_c b) in
+  if force && starts_with [48] (skipn 3 b) && negb (Nat.eqb (length b) 4) then Internal iValueError
+  else
+    let u := map upper_c (replace_char 45 95 b) in
+    match assoc_text u svcb_keys with
+    | Some v => Ok (v, force)
+    | None =>
+        if starts_with [75; 69; 89] u && negb (is_nil (skipn 3 u)) && forallb is_decimal (skipn 3 u) then
+          let v := dec_value (skipn 3 u) 0 in
+          if v >? 65535 then Internal iValueError else Ok (v, force)
+        else Lib eUnknownRdatatype        (* UnknownParamKey: outside the SyntaxError family *)
+    end.
+
+Inductive pval :=
+| PNone                              (* key without value (value None) *)
+| PKeys (l : list Z)                 (* mandatory *)
+| PStrs (l : list (list Z))          (* alpn, docpath *)
+| PPort (z : Z)
+| PAddrs (v6 : bool) (l : list (list Z))   (* ipv4hint / ipv6hint, as octets *)
+| PEch (b : list Z)
+| PGen (b : list Z).                 (* any other key *)
+
+(* Emptiness.NEVER: the classes that need a value *)
+Definition svcb_never (k : Z) : bool := (k =? 0) || (k =? 1) || (k =? 3) || (k =? 4) || (k =? 5) || (k =? 6).
+(* keys with a class of their own in _class_for_key *)
+Definition svcb_known (k : Z) : bool :=
+  (k =? 0) || (k =? 1) || (k =? 2) || (k =? 3) || (k =? 4) || (k =? 5) || (k =? 6) || (k =? 8) || (k =? 10).
+
+Fixpoint has_dup_sorted (l : list Z) : bool :=
+  match l with
+  | a :: ((b :: _) as r) => (a =? b) || has_dup_sorted r
+  | _ => false
+  end.
+
+(* cls.from_value(value) for a value that is not None *)
+Definition svcb_from_value (k : Z) (v : list Z) : res pval :=
+  if k =? 0 then                                   (* MandatoryParam *)
+    do ks <- map_res (fun t => do e <- utf8_encode t; do kf <- svcb_validate_key e; Ok (fst kf)) (split_on 44 v []);
+    let sorted := sort_z ks in
+    if has_dup_sorted sorted || existsb (Z.eqb 0) sorted then Internal iValueError else Ok (PKeys sorted)
+  else if (k =? 1) || (k =? 10) then               (* ALPNParam, DoCPathParam *)
+    if is_nil v then Ok PNone
+    else do u <- svcb_unescape v; do ids <- svcb_split u [];
+         if existsb (fun i => is_nil i || (zlen i >? 255)) ids then Internal iValueError else Ok (PStrs ids)
+  else if (k =? 2) || (k =? 8) then                (* NoDefaultALPNParam, OHTTPParam *)
+    if is_nil v then Ok PNone else Internal iValueError
+  else if k =? 3 then                              (* PortParam *)
+    match py_int 10 v with
+    | Some p => if (p <? 0) || (p >? 65535) then Internal iValueError else Ok (PPort p)
+    | None => Internal iValueError
+    end
+  else if k =? 4 then do l <- map_res ipv4_aton (split_on 44 v []); Ok (PAddrs false l)
+  else if k =? 6 then do l <- map_res ipv6_aton (split_on 44 v []); Ok (PAddrs true l)
+  else if k =? 5 then                              (* ECHParam *)
+    if existsb (Z.eqb 92) v then Internal iValueError
+    else do e <- utf8_encode v; do b <- b64decode e; Ok (PEch b)
+  else                                             (* GenericParam *)
+    if is_nil v then Ok PNone else do b <- svcb_unescape v; Ok (PGen b).
+
+(* _validate_and_define *)
+Definition svcb_define (params : list (Z * pval)) (key : list Z) (value : option (list Z)) : res (list (Z * pval)) :=
+  do kb <- svcb_unescape key;
+  do kf <- svcb_validate_key kb;
+  let '(k, force) := kf in
+  if existsb (fun kv => fst kv =? k) params then Internal iValueError       (* duplicate key *)
+  else
+    do pv <- match value with
+             | None => if svcb_never k then Internal iValueError else Ok PNone
+             | Some v =>
+                 if force then
+                   (* cls.from_wire_parser(Parser(_unescape(value))): modelled for the generic class only *)
+                   if svcb_known k then Internal iNotModelled
+                   else do b <- svcb_unescape v; Ok (if is_nil b then PNone else PGen b)
+                 else svcb_from_value k v
+             end;
+    Ok (params ++ [(k, pv)]).
+
+(* the parameter loop of SVCBBase.from_text *)
+Fixpoint svcb_params_loop (fuel : nat) (st : tstate) (params : list (Z * pval)) : res (list (Z * pval) * tstate) :=
+  match fuel with
+  | O => Internal tFuel
+  | S f =>
+      do ts <- get0 st;
+      let '(t, st1) := ts in
+      if is_eol_or_eof t then do st2 <- unget st1 t; Ok (params, st2)
+      else if negb (is_identifier t) then Internal iValueError
+      else
+        let v := tvalue t in
+        match split_once 61 v with
+        | None => do ps <- svcb_define params v None; svcb_params_loop f st1 ps
+        | Some (key, rest) =>
+            if is_nil key then Internal iValueError                    (* "=key" *)
+            else if is_nil rest then                                   (* "key=" + quoted string *)
+              do qs <- get st1 true false;
+              if negb (is_quoted (fst qs)) then Internal iValueError
+              else do ps <- svcb_define params key (Some (tvalue (fst qs))); svcb_params_loop f (snd qs) ps
+            else do ps <- svcb_define params key (Some rest); svcb_params_loop f st1 ps
+        end
+  end.
+
+(* SVCBBase.__init__: mandatory keys present, no-default-alpn needs alpn *)
+Definition svcb_ctor_ok (params : list (Z * pval)) : bool :=
+  let keys := map fst params in
+  forallb (fun kv => match snd kv with
+                     | PKeys l => if fst kv =? 0 then forallb (fun m => existsb (Z.eqb m) keys) l else true
+                     | _ => true
+                     end) params
+  && (negb (existsb (Z.eqb 2) keys) || existsb (Z.eqb 1) keys).
+
+Definition svcb_from_text (c : pctx) (st : tstate) : res (Z * name * list (Z * pval) * tstate) :=
+  do ps <- get_uint max16 st 10;
+  do ns <- get_name c (snd ps);
+  do st1 <- (if fst ps =? 0 then
+               do ts <- get0 (snd ns);
+               if negb (is_eol_or_eof (fst ts)) then Internal iValueError      (* parameters in AliasMode *)
+               else unget (snd ts) (fst ts)
+             else Ok (snd ns));
+  do pl <- svcb_params_loop (rem_fuel st1) st1 [];
+  if svcb_ctor_ok (fst pl) then Ok (fst ps, fst ns, fst pl, snd pl) else Internal iValueError.
+
+(* Param.to_text *)
+Definition pval_text (v : pval) : res (option (list Z)) :=
+  match v with
+  | PNone => Ok None
+  | PKeys l => Ok (Some (34 :: join_comma (map svcb_key_text l) ++ [34]))
+  | PStrs ids => Ok (Some (quote (join_comma (map svcb_escapify ids))))
+  | PPort p => Ok (Some (34 :: dec p ++ [34]))
+  | PAddrs v6 l => do ts <- map_res (if v6 then ipv6_ntoa else ipv4_ntoa) l; Ok (Some (34 :: join_comma ts ++ [34]))
+  | PEch b => Ok (Some (34 :: b64encode b ++ [34]))
+  | PGen b => Ok (Some (quote b))
+  end.
+
+Definition svcb_param_text (kv : Z * pval) : res (list Z) :=
+  do t <- pval_text (snd kv);
+  Ok (svcb_key_text (fst kv) ++ match t with Some x => 61 :: x | None => [] end).
+
+(* SVCBBase.to_styled_text (the params are kept sorted by key) *)
+Definition svcb_to_text (st : style) (prio : Z) (target : name) (params : list (Z * pval)) : res (list Z) :=
+  do tgt <- name_to_styled_text st target;
+  do ps <- map_res svcb_param_text params;
+  Ok (dec prio ++ [32] ++ tgt ++ flat_map (fun p => 32 :: p) ps).
+
 (* ---------- the regular types ---------- *)
 Definition u8 := FDec 255. Definition u16 := FDec 65535. Definition u32 := FDec 4294967295.
 Definition cstr := FQStr 0 255 false.
@@ -1369,8 +1580,72 @@ Definition run_addr (c : obs) : obs :=
   | _ => E eBadCase
   end.
 
+(* ---------- SVCB / HTTPS (ops 44, 45) ---------- *)
+Fixpoint zs_of_obs (l : list obs) : option (list Z) :=
+  match l with
+  | [] => Some []
+  | I z :: r => match zs_of_obs r with Some t => Some (z :: t) | None => None end
+  | _ => None
+  end.
+
+Definition pval_of_obs (kind : Z) (o : obs) : option pval :=
+  if kind =? 0 then Some PNone
+  else match o with
+       | L l =>
+           if kind =? 1 then match zs_of_obs l with Some ks => Some (PKeys ks) | None => None end
+           else if kind =? 2 then match strings_of_obs l with Some ss => Some (PStrs ss) | None => None end
+           else if kind =? 4 then match strings_of_obs l with Some ss => Some (PAddrs false ss) | None => None end
+           else if kind =? 6 then match strings_of_obs l with Some ss => Some (PAddrs true ss) | None => None end
+           else None
+       | I z => if kind =? 3 then Some (PPort z) else None
+       | B b => if kind =? 5 then Some (PEch b) else if kind =? 7 then Some (PGen b) else None
+       | _ => None
+       end.
+
+Fixpoint params_of_obs (l : list obs) : option (list (Z * pval)) :=
+  match l with
+  | [] => Some []
+  | L [I k; I kind; o] :: r =>
+      match pval_of_obs kind o, params_of_obs r with
+      | Some v, Some t => Some ((k, v) :: t)
+      | _, _ => None
+      end
+  | _ => None
+  end.
+
+Definition obs_of_pval (v : pval) : list obs :=
+  match v with
+  | PNone => [I 0; I 0]
+  | PKeys l => [I 1; L (map I l)]
+  | PStrs l => [I 2; L (map B l)]
+  | PPort p => [I 3; I p]
+  | PAddrs v6 l => [I (if v6 then 6 else 4); L (map B l)]
+  | PEch b => [I 5; B b]
+  | PGen b => [I 7; B b]
+  end.
+
+Definition run_svcb (c : obs) : obs :=
+  match c with
+  | L [I 44; I prio; L target; L params; sty] =>
+      match name_of_obs target, params_of_obs params, style_of_obs sty with
+      | Some n, Some ps, Some st => TokM.obs_of_res obs_of_text (svcb_to_text st prio n ps)
+      | _, _, _ => E eBadCase
+      end
+  | L [I 45; I _; t; ctx] =>
+      match pctx_of_obs ctx, text_of_obs t with
+      | Some pc, Some s =>
+          TokM.obs_of_res (fun r : Z * name * list (Z * pval) => let '(p, n, ps) := r in
+                              L [I p; obs_of_name n; L (map (fun kv => L (I (fst kv) :: obs_of_pval (snd kv))) ps)])
+            (rdata_from_text (fun st => do r <- svcb_from_text pc st; let '(p, n, ps, st') := r in Ok ((p, n, ps), st'))
+                             (fun _ => Internal iNotModelled) (fun _ => Internal iNotModelled) s)
+      | _, _ => E eBadCase
+      end
+  | _ => E eBadCase
+  end.
+
 Definition run (c : obs) : obs :=
   match c with
-  | L (I op :: _) => if (50 <=? op) && (op <=? 69) then run_addr c else run_text c
+  | L (I op :: _) => if (50 <=? op) && (op <=? 69) then run_addr c
+                     else if (op =? 44) || (op =? 45) then run_svcb c else run_text c
   | _ => run_text c
   end.
